@@ -11,6 +11,9 @@ dst = "/verif/seeded/%s_%sm%s" % (pid, os.environ.get("SEED_ROUND", ""), k)
 os.makedirs(dst, exist_ok=True)
 shutil.copy(os.path.join(sdir, "m%s.diff" % k), dst + "/patch.diff")
 shutil.copy(os.path.join(sdir, "m%s_demo.py" % k), dst + "/demo.py")
+if ("m%s_demo" % k) in open(os.path.join(sdir, "m%s_demo.py" % k)).read():
+    # the demonstration imports itself by name (reader sub-process): keep that name too
+    shutil.copy(os.path.join(sdir, "m%s_demo.py" % k), dst + "/m%s_demo.py" % k)
 meta = json.load(open(os.path.join(sdir, "m%s_meta.json" % k)))
 checks = {c[6:]: {"exit": v["rc"], "clauses": [l.strip()[:200] for l in v["lines"] if l.startswith("  clause=")][:4]}
           for c, v in trial.items() if c.startswith("check_")}
